@@ -69,6 +69,10 @@ func (g *gen) argValue(t *ast.Type) string {
 }
 
 func (g *gen) cond() string {
+	// variants with an executable directive: put it on some fields (it passes the value on)
+	if g.s.Directives["trace"] != nil && g.t.Bool(1, 6, "trace?") {
+		return " @trace"
+	}
 	switch g.t.Choose(8, "cond") {
 	case 1:
 		return " @include(if:true)"
